@@ -70,10 +70,17 @@ class MyTypeCopier : public MockNamedValueCopier {
 public:
     void copy(void* dst, const void* src) CPPUTEST_OVERRIDE { *(MyType*)dst = *(const MyType*)src; }
 };
+class MyType2Comparator : public MockNamedValueComparator {       // same equality, another text
+public:
+    bool isEqual(const void* a, const void* b) CPPUTEST_OVERRIDE { return ((const MyType*)a)->x == ((const MyType*)b)->x; }
+    SimpleString valueToString(const void* a) CPPUTEST_OVERRIDE { return StringFromFormat("Second[%d]", ((const MyType*)a)->x); }
+};
+static const double tolPool[4] = { 0.0, 0.0, 0.3, -1.0 };      // index 1: exact match asked for explicitly
 extern "C" {
 static int myTypeEqualC(const void* a, const void* b) { return ((const MyType*)a)->x == ((const MyType*)b)->x; }
 static const char* myTypeToStringC(const void* a) { static char buf[32]; snprintf(buf, sizeof buf, "MyType(%d)", ((const MyType*)a)->x); return buf; }
 static void myTypeCopyC(void* dst, const void* src) { *(MyType*)dst = *(const MyType*)src; }
+static const char* myType2ToStringC(const void* a) { static char buf[32]; snprintf(buf, sizeof buf, "Second[%d]", ((const MyType*)a)->x); return buf; }
 }
 
 static Vec<int> parseIdx(const Str& s) { Vec<int> v; size_t p = 0; while (p < s.size()) { v.push_back(atoi(s.c_str() + p)); size_t q = s.find(',', p); if (q == Str::npos) break; p = q + 1; } return v; }
@@ -87,8 +94,9 @@ struct Outcome {           // what one execution of a scenario looked like from 
 };
 struct CallPlan { int fn; int obj; Vec<int> vals; Str dev; int task; bool extra; int scope; bool shortForm; int xget; };   // xget: 0, or one more read of the returned value through getter number xget, whatever the stored type
 struct ExpPlan { int fn; int count; int flags; int obj; Vec<int> vals; int ret; int scope; };      // flags: 1 ignoreOtherParameters, 2 named scope, 4 short form (last parameter not specified, and not passed by its calls)
-struct Scenario { bool strict, ignoreOther, useScope, preFail; int rounds; Vec<ExpPlan> exps; Vec<CallPlan> calls; Vec<Op> data; };
+struct Scenario { bool strict, ignoreOther, useScope, preFail; int rounds; int type2 /* fn6's object parameter uses a second custom type: same equality function, other to-string */, tol /* 0 none, else index into tolPool for fn3's double parameter */; Vec<ExpPlan> exps; Vec<CallPlan> calls; Vec<Op> data; };
 
+static const char* objType(const Scenario& sc) { return sc.type2 ? "MyType2" : "MyType"; }
 struct Front {
     virtual ~Front() {}
     virtual const char* id() = 0;
@@ -130,6 +138,7 @@ struct CppFront : public Front {
     void begin(const Scenario& sc) {
         static MyTypeComparator cmp; static MyTypeCopier cp;
         mock().installComparator("MyType", cmp); mock().installCopier("MyType", cp);
+        static MyType2Comparator cmp2; mock().installComparator("MyType2", cmp2); mock().installCopier("MyType2", cp);
         mock("scope1");                                  // the named scope exists before anything recursive is switched on
         if (sc.strict) m(sc).strictOrder();
         if (sc.ignoreOther) mock().ignoreOtherCalls();
@@ -150,13 +159,13 @@ struct CppFront : public Front {
             case T_ULONG: x.withParameter(F.p[k].name, (unsigned long)ulongPool[v]); break;
             case T_LL: x.withParameter(F.p[k].name, (cpputest_longlong)longPool[v]); break;
             case T_ULL: x.withParameter(F.p[k].name, (cpputest_ulonglong)ulongPool[v]); break;
-            case T_DOUBLE: x.withParameter(F.p[k].name, dblPool[v]); break;
+            case T_DOUBLE: if (sc.tol) x.withParameter(F.p[k].name, dblPool[v], tolPool[sc.tol]); else x.withParameter(F.p[k].name, dblPool[v]); break;
             case T_STRING: x.withParameter(F.p[k].name, strPool[v]); break;
             case T_PTR: x.withParameter(F.p[k].name, (void*)(uintptr_t)(0x1000 + 16 * v)); break;
             case T_CPTR: x.withParameter(F.p[k].name, (const void*)(uintptr_t)(0x2000 + 16 * v)); break;
             case T_FPTR: x.withParameter(F.p[k].name, fpPool[v & 3]); break;
             case T_MEM: x.withParameter(F.p[k].name, memPool[v], memLen[v]); break;
-            case T_OBJ: x.withParameterOfType("MyType", F.p[k].name, &objPool[v]); break;
+            case T_OBJ: x.withParameterOfType(objType(sc), F.p[k].name, &objPool[v]); break;
             default: break;
             }
         }
@@ -194,13 +203,13 @@ struct CppFront : public Front {
             case T_ULONG: x.withParameter(pn, (unsigned long)ulongPool[v]); break;
             case T_LL: x.withParameter(pn, (cpputest_longlong)longPool[v]); break;
             case T_ULL: x.withParameter(pn, (cpputest_ulonglong)ulongPool[v]); break;
-            case T_DOUBLE: x.withParameter(pn, dblPool[v]); break;
+            case T_DOUBLE: x.withParameter(pn, dblPool[v] + (sc.tol ? 0.001 : 0.0)); break;      // with a tolerance in play the actual value is slightly off
             case T_STRING: x.withParameter(pn, strPool[v]); break;
             case T_PTR: x.withParameter(pn, (void*)(uintptr_t)(0x1000 + 16 * v)); break;
             case T_CPTR: x.withParameter(pn, (const void*)(uintptr_t)(0x2000 + 16 * v)); break;
             case T_FPTR: x.withParameter(pn, fpPool[v & 3]); break;
             case T_MEM: x.withParameter(pn, memPool[v], memLen[v]); break;
-            case T_OBJ: x.withParameterOfType("MyType", pn, &objPool[v]); break;
+            case T_OBJ: x.withParameterOfType(objType(sc), pn, &objPool[v]); break;
             default: break;
             }
         }
@@ -287,6 +296,7 @@ struct CFront : public Front {
     MockSupport_c* m(const Scenario& sc, int scope = 0) { return (sc.useScope || scope) ? mock_scope_c("scope1") : mock_c(); }
     void begin(const Scenario& sc) {
         mock_c()->installComparator("MyType", myTypeEqualC, myTypeToStringC); mock_c()->installCopier("MyType", myTypeCopyC);
+        mock_c()->installComparator("MyType2", myTypeEqualC, myType2ToStringC); mock_c()->installCopier("MyType2", myTypeCopyC);
         mock_scope_c("scope1");
         if (sc.strict) m(sc)->strictOrder();
         if (sc.ignoreOther) mock_c()->ignoreOtherCalls();
@@ -306,13 +316,13 @@ struct CFront : public Front {
             case T_ULONG: x->withUnsignedLongIntParameters(F.p[k].name, (unsigned long)ulongPool[v]); break;
             case T_LL: x->withLongLongIntParameters(F.p[k].name, (cpputest_longlong)longPool[v]); break;
             case T_ULL: x->withUnsignedLongLongIntParameters(F.p[k].name, (cpputest_ulonglong)ulongPool[v]); break;
-            case T_DOUBLE: x->withDoubleParameters(F.p[k].name, dblPool[v]); break;
+            case T_DOUBLE: if (sc.tol) x->withDoubleParametersAndTolerance(F.p[k].name, dblPool[v], tolPool[sc.tol]); else x->withDoubleParameters(F.p[k].name, dblPool[v]); break;
             case T_STRING: x->withStringParameters(F.p[k].name, strPool[v]); break;
             case T_PTR: x->withPointerParameters(F.p[k].name, (void*)(uintptr_t)(0x1000 + 16 * v)); break;
             case T_CPTR: x->withConstPointerParameters(F.p[k].name, (const void*)(uintptr_t)(0x2000 + 16 * v)); break;
             case T_FPTR: x->withFunctionPointerParameters(F.p[k].name, fpPool[v & 3]); break;
             case T_MEM: x->withMemoryBufferParameter(F.p[k].name, memPool[v], memLen[v]); break;
-            case T_OBJ: x->withParameterOfType("MyType", F.p[k].name, &objPool[v]); break;
+            case T_OBJ: x->withParameterOfType(objType(sc), F.p[k].name, &objPool[v]); break;
             default: break;
             }
         }
@@ -349,13 +359,13 @@ struct CFront : public Front {
             case T_ULONG: x->withUnsignedLongIntParameters(pn, (unsigned long)ulongPool[v]); break;
             case T_LL: x->withLongLongIntParameters(pn, (cpputest_longlong)longPool[v]); break;
             case T_ULL: x->withUnsignedLongLongIntParameters(pn, (cpputest_ulonglong)ulongPool[v]); break;
-            case T_DOUBLE: x->withDoubleParameters(pn, dblPool[v]); break;
+            case T_DOUBLE: x->withDoubleParameters(pn, dblPool[v] + (sc.tol ? 0.001 : 0.0)); break;
             case T_STRING: x->withStringParameters(pn, strPool[v]); break;
             case T_PTR: x->withPointerParameters(pn, (void*)(uintptr_t)(0x1000 + 16 * v)); break;
             case T_CPTR: x->withConstPointerParameters(pn, (const void*)(uintptr_t)(0x2000 + 16 * v)); break;
             case T_FPTR: x->withFunctionPointerParameters(pn, fpPool[v & 3]); break;
             case T_MEM: x->withMemoryBufferParameter(pn, memPool[v], memLen[v]); break;
-            case T_OBJ: x->withParameterOfType("MyType", pn, &objPool[v]); break;
+            case T_OBJ: x->withParameterOfType(objType(sc), pn, &objPool[v]); break;
             default: break;
             }
         }
@@ -514,7 +524,7 @@ struct Engine : public vf::Engine {
         for (int s = 0; s < nScen; s++) {
             Group G; G.tag = "scenario";
             bool strict = w.chance(1, 4), ignoreOther = w.chance(1, 5), scope = w.chance(1, 5);
-            G.args.push_back(strict); G.args.push_back(ignoreOther); G.args.push_back(scope); G.args.push_back(cfront && w.chance(1, 6)); G.args.push_back(cfront && w.chance(1, 6) ? 2 : 1);
+            G.args.push_back(strict); G.args.push_back(ignoreOther); G.args.push_back(scope); G.args.push_back(cfront && w.chance(1, 6)); G.args.push_back(cfront && w.chance(1, 6) ? 2 : 1); G.args.push_back(cfront && w.chance(1, 5)); G.args.push_back(cfront && w.chance(1, 5) ? (int64_t)w.range(1, 3) : 0);
             bool mixedScopes = !strict && !scope && w.chance(1, 4), shortForms = w.chance(1, 5);
             int nFn = (int)w.range(1, 4); int fns[4]; for (int i = 0; i < nFn; i++) fns[i] = (int)w.below(N_FN);
             int nExp = (int)w.small(1, 12);
@@ -585,7 +595,7 @@ struct Engine : public vf::Engine {
 
     // -------------------------------------------------------------------------------------------- model
     static void buildScenario(const Group& G, Scenario& sc) {
-        sc.strict = G.arg(0) != 0; sc.ignoreOther = G.arg(1) != 0; sc.useScope = G.arg(2) != 0; sc.preFail = G.arg(3) != 0; sc.rounds = G.arg(4, 1) == 2 ? 2 : 1;
+        sc.strict = G.arg(0) != 0; sc.ignoreOther = G.arg(1) != 0; sc.useScope = G.arg(2) != 0; sc.preFail = G.arg(3) != 0; sc.rounds = G.arg(4, 1) == 2 ? 2 : 1; sc.type2 = (int)G.arg(5); sc.tol = (int)(G.arg(6) & 3);
         for (size_t i = 0; i < G.ops.size(); i++) {
             const Op& o = G.ops[i];
             if (o.kind == M_EXPECT) { ExpPlan e; e.fn = (int)(o.a % N_FN); e.count = (int)o.b; e.flags = (int)o.c; e.obj = (int)o.d; e.vals = parseIdx(o.s); e.vals.resize((size_t)FNS[e.fn].np, 0); e.ret = atoi(o.s2.c_str()); e.scope = (e.flags & 2) ? 1 : 0; sc.exps.push_back(e); }
@@ -738,7 +748,7 @@ struct Engine : public vf::Engine {
                 Vec<Cls> cls;
                 if (scs[i].preFail) { probe("scenario_fails_before_mock_check"); continue; }
                 if (scs[i].rounds > 1) { probe("scenario_two_rounds_with_clear"); continue; }
-                { bool xg = false; for (size_t q = 0; q < scs[i].calls.size(); q++) if (scs[i].calls[q].xget) xg = true; if (xg) { probe("scenario_reads_through_other_getter"); continue; } }
+                { bool xg = false; for (size_t q = 0; q < scs[i].calls.size(); q++) if (scs[i].calls[q].xget) xg = true; if (scs[i].type2 || scs[i].tol) xg = true; if (xg) { probe("scenario_reads_through_other_getter"); continue; } }
                 if (!buildClasses(scs[i], cls)) { probe("scenario_outside_precondition"); continue; }
                 Walk x; model(scs[i], orders[i], cls, x);
                 bool passed = outs[i].failures == 0;
